@@ -265,6 +265,11 @@ func (x *exec) loadFunc(ctx context.Context, sid string) (real.Object, error) {
 
 func (x *exec) closeStart(o *instance, what string) string {
 	x.logf("t%d %s-start i%d", x.cur.idx, what, o.n)
+	// identity-checked ("conditional") removal: RemoveSame(id, v) may only ever close v. (A nil
+	// target is excluded: RemoveSame(id, nil) matches a placeholder whose value is still nil.)
+	if t := x.cur; t.op.kind == opRemoveSame && t.same != nil && o != t.same {
+		x.violate("conditional_removal_identity", fmt.Sprintf("t%d %s was given i%d but calls %s on i%d", t.idx, t.op, t.same.n, what, o.n))
+	}
 	switch {
 	case o.closed:
 		return fmt.Sprintf("%s called on i%d which is already closed", what, o.n)
